@@ -314,6 +314,12 @@ def run_case(i, rng, rec, tier, state):
     q = q[rng.permutation(len(q))] if rng.random() < 0.5 else q
     F = _call(rec, s, q.copy(), name, info)
     _relational(rec, rng, s, name, q, tags, F, measure, L, shift, info, **relkw)
+    # whole-number wave vectors as integer arrays (judged by the same monitor)
+    qi = np.rint(q[rng.choice(len(q), size=min(4, len(q)), replace=False)])
+    if float(np.abs(qi).max()) < 2 ** 30:
+        rec.cls("q-form:int")
+        _call(rec, s, qi.astype(np.int64), name, info)
+        _call(rec, s, qi[:2].astype(np.int32), name, info)
     rho = float(rng.choice([0.5, 2.0, -1.5, 3.25]))
     rec.cls("density!=1")
     _call(rec, s, q[:5].copy(), name, info, density=rho)
